@@ -1,5 +1,5 @@
 SPECIFICATION TraceSpec
-CONSTANTS Conns = {"c1", "c2"} MaxOut = 1000 MatchByPort = FALSE
+CONSTANTS Conns = {"c1", "c2"} MaxOut = 1000 MatchByPort = FALSE Timeouts = 0 OneShotBuffered = TRUE
 INVARIANTS FlushSound OwnReport
 POSTCONDITION TraceAccepted
 CHECK_DEADLOCK FALSE
